@@ -178,7 +178,7 @@ func (s *genSuite) roundTrip(seq int) {
 
 // ops = number of round trips; between two of them the history advances by a few blocks
 func runGenesis(seed uint64, ops int, out string) map[string]int {
-	r := &Rng{s: seed*7919 + 17}
+	r := SeedRng("genesis", seed)
 	s := &genSuite{r: r, t: NewTrace(out), stat: map[string]int{}}
 	defer s.t.Close()
 	seq := 0
